@@ -48,6 +48,9 @@ type scanScenario struct {
 	excAtResp    int // the k-th scan response is an exception
 	earlyAtResp  int // the k-th response claims more_results=false (at a row boundary)
 	maxCut       int
+	// lease renewal (hrpc.RenewInterval) with the user pausing between Next calls
+	renew time.Duration
+	think time.Duration
 }
 
 type scanRun struct {
@@ -146,6 +149,9 @@ func runScan(sc scanScenario) scanRun {
 	if sc.partial {
 		opts = append(opts, hrpc.AllowPartialResults())
 	}
+	if sc.renew > 0 {
+		opts = append(opts, hrpc.RenewInterval(sc.renew))
+	}
 	scan, err := hrpc.NewScanRange(ctx, []byte("t"), sc.start, sc.stop, opts...)
 	if err != nil {
 		panic(err)
@@ -161,7 +167,7 @@ func runScan(sc scanScenario) scanRun {
 	}
 	synctest.Wait()
 	tr.Emit("scanStart", "scenario", sc.name, "rows", rowsJ, "splits", splitsJ, "start", verifsim.Bytes(sc.start), "stop", verifsim.Bytes(sc.stop),
-		"reversed", sc.reversed, "partial", sc.partial)
+		"reversed", sc.reversed, "partial", sc.partial, "renew", sc.renew > 0)
 	s := c.Scan(scan)
 	terminal := 0
 	for n := 1; n <= 4*len(sc.rows)+8 && terminal < 2; n++ {
@@ -173,6 +179,10 @@ func runScan(sc scanScenario) scanRun {
 		if sc.cancelBefore == n {
 			tr.Emit("cancel")
 			cancel()
+		}
+		if sc.think > 0 && n > 1 {
+			time.Sleep(sc.think) // the user is busy with the previous row: renewals keep the region scanner's lease alive
+			synctest.Wait()
 		}
 		tr.Emit("nextCall")
 		r, err := s.Next()
@@ -216,6 +226,11 @@ func runScan(sc scanScenario) scanRun {
 	}
 	run.leftOpen = open
 	tr.Emit("scanEnd", "open", openJ)
+	if sc.renew > 0 {
+		time.Sleep(5 * sc.renew) // a renewer that outlives its scan would show here
+		synctest.Wait()
+		tr.Emit("renewQuiet")
+	}
 	c.Close()
 	synctest.Wait()
 	run.events = tr.Events()
@@ -236,11 +251,11 @@ func scanFlush(w *verifsim.NDJSONWriter, evs []verifsim.Ev) int {
 				metaIDs[e["scanner"].(int)] = true
 				continue
 			}
-		case "scanCont", "scanResp", "scanClose", "scanExc":
+		case "scanCont", "scanResp", "scanClose", "scanExc", "scanRenew":
 			if metaIDs[e["scanner"].(int)] {
 				continue
 			}
-		case "nextCall", "next", "cancel", "userClose", "scanEnd":
+		case "nextCall", "next", "cancel", "userClose", "scanEnd", "renewQuiet":
 		default:
 			continue
 		}
@@ -333,6 +348,34 @@ func TestVerifScan(t *testing.T) {
 						e.name += fmt.Sprintf("/end=%d,%d,%d,%d", e.closeBefore, e.cancelBefore, e.excAtResp, e.earlyAtResp)
 						do(e)
 						total++
+					}
+				}
+				if count%3 == 0 {
+					// the same script with lease renewal on and a user who pauses 2.5 renew intervals between Next calls; with
+					// endings, one of them rotating
+					rn := sc
+					rn.renew, rn.think = time.Second, 2500*time.Millisecond
+					rn.name += "/renew"
+					if endings {
+						switch (count / 3) % 4 {
+						case 0:
+							rn.closeBefore = 2 + (count/12)%3
+						case 1:
+							rn.cancelBefore = 2 + (count/12)%3
+						case 2:
+							rn.excAtResp = 2 + (count/12)%3
+						}
+						rn.name += fmt.Sprintf("/end=%d,%d,%d,%d", rn.closeBefore, rn.cancelBefore, rn.excAtResp, rn.earlyAtResp)
+					}
+					rr := do(rn)
+					total++
+					quiet := false
+					for _, e := range rr.events {
+						if e["ev"] == "scanEnd" {
+							quiet = true
+						} else if quiet && e["ev"] == "scanRenew" {
+							rep.bad("renewal-after-scan-end", "%s: a renewal request reached a server after the scan had ended", rn.name)
+						}
 					}
 				}
 				run := do(sc)
